@@ -106,8 +106,9 @@ def gen_cases(tier, seed):
               for i in range(10 if tier == "quick" else 60)]
     # plan edits in watch mode: a plan that fails, then its repair together with a change of something
     # that only the (meanwhile detached) sub-plan declared
-    cases += [{"id": f"c14-phases-{seed}-{k}", "seed": seed * 6007 + 97000 + i, "rounds": 2, "scenario": k}
-              for i, k in enumerate(["failed_plan_then_edit", "failed_plan_then_new_match"])]
+    cases += [{"id": f"c14-phases-{seed}-{k}-{j}", "seed": seed * 6007 + 97000 + 10 * i + j, "rounds": 2, "scenario": k}
+              for i, k in enumerate(["failed_plan_then_edit", "failed_plan_then_new_match"])
+              for j in range(2 if tier == "quick" else 8)]
     return cases
 
 
@@ -402,7 +403,7 @@ def run_case(case):
                     shutil.copytree(".", copy, symlinks=True)
                     # some static files are edited while the rebuild runs (next round sees them)
                     during = []
-                    if rng.random() < 0.3:
+                    if rng.random() < 0.3 and not case.get("scenario", "").startswith("failed_plan"):
                         srcs = sorted(p for p in tree(".") if p in user_files and p.startswith(("src/", "data/", "in/")))
                         if srcs:
                             ctl.queue.append(rng.choice(srcs))
